@@ -33,6 +33,7 @@ func nmoveKernelStage(c *vh.Ctx, n int, prop string) {
 	}
 	saved := kept
 	c.Correspond("nitro.nmove", cases, impl, 1e-9, 1e-12, func(i int) interface{} { return saved[i] })
+	nmoveConcurrent(c, saved)
 }
 
 func evalNmoveCase(c *vh.Ctx, nc *nmoveCase, prop string, cases, impl *[]string, kept *[]nmoveCase, key string) {
@@ -551,4 +552,34 @@ func checkC02(c *vh.Ctx) {
 	denitmoKernelStage(c, c.N(1500, 20000))
 	denitmoRunStage(c, c.N(4, 30), 9, 20)
 	denitmoRunStage(c, c.N(6, 30), 2, 8) // peat profiles shallower than the three 30 cm blocks
+}
+
+// nmoveConcurrent: the nmove cases in 8 goroutines at once must give the sequential answers (see kern_concurrent.go)
+func nmoveConcurrent(c *vh.Ctx, saved []nmoveCase) {
+	nc := minI(len(saved), 600)
+	if nc == 0 {
+		return
+	}
+	render := func(i int) string {
+		cs := saved[i]
+		o, pan := runNmoveImpl(&cs)
+		if pan != "" {
+			return "panic " + pan
+		}
+		return fmt.Sprint(o.C1, o.Unstable, o.Outsum, o.Drainl, o.Pesum, o.Aufnasum, o.Disp, o.Konv)
+	}
+	want := make([]string, nc)
+	for i := range want {
+		want[i] = render(i)
+	}
+	concurrentKernelStage(c, "nmove", want, 8, 2, render, func(i int, got string) {
+		if i < 0 {
+			c.Violate("search", "nmove:concurrent:panic", "nmove panics when several simulations run at the same time: "+got, nil)
+			return
+		}
+		if render(i) != want[i] {
+			return
+		}
+		c.Violate("search", "nmove:concurrent:differs-from-sequential", fmt.Sprintf("nmove on its own state gives another answer when other simulations call it at the same time (state shared between runs): sequential %.80s…, concurrent %.80s…", want[i], got), saved[i])
+	})
 }
